@@ -3,6 +3,7 @@
 //!   conform replay <engine> <tlc-output-or-ndjson> <report.json>
 mod conv;
 mod exec;
+mod gen;
 mod model;
 mod ops;
 mod parse;
@@ -162,6 +163,23 @@ fn run(args: &[String]) -> Result<i32, String> {
             std::fs::write(out, serde_json::to_string(&rep.to_json()).unwrap()).map_err(|e| e.to_string())?;
             println!("replayed {} cases ({} evaluations), {} mismatches, {} tool errors", rep.cases, rep.evaluations, rep.mismatch_count, rep.tool_errors.len());
             Ok(if !rep.tool_errors.is_empty() { 2 } else if rep.mismatch_count > 0 { 1 } else { 0 })
+        }
+        Some("record") => {
+            // conform record <profile> <seed> <n> <depth> <trace.ndjson>
+            let profile = args.get(2).ok_or("profile")?;
+            let seed: u64 = args.get(3).ok_or("seed")?.parse().map_err(|_| "seed")?;
+            let n: usize = args.get(4).ok_or("n")?.parse().map_err(|_| "n")?;
+            let depth: u32 = args.get(5).ok_or("depth")?.parse().map_err(|_| "depth")?;
+            let trace = args.get(6).ok_or("trace path")?;
+            let (recs, panics) = gen::record(seed, n, profile, depth)?;
+            let mut lines = String::new();
+            for r in &recs {
+                lines.push_str(&serde_json::to_string(r).unwrap());
+                lines.push('\n');
+            }
+            std::fs::write(trace, lines).map_err(|e| e.to_string())?;
+            println!("recorded {} evaluations ({} panics)", recs.len(), panics.len());
+            Ok(0)
         }
         Some("threads") => {
             // conform threads <cases> <n_threads> <n_evals> <trace.ndjson> <report.json>
